@@ -321,7 +321,9 @@ class RDFWriter(object):
 
             # Ignore "id" and empty values, but make sure the content of "value"
             # is only accessed via its non deprecated property "values".
-            if k == "id" or not curr_val:
+            # A numerical value of zero (uncertainty) is a set attribute.
+            is_zero = isinstance(curr_val, (int, float)) and not isinstance(curr_val, bool)
+            if k == "id" or (not curr_val and not is_zero):
                 continue
 
             if k == "value":
